@@ -11,7 +11,7 @@ use serde_json::{json, Value};
 pub static ENGINE: Engine = Engine {
     prop: "C16",
     level: "exploration",
-    rule: "the real max_clique_gen binary on EVERY edge set over the vertex names {a,b,c} including self-loops (512 graphs; thorough: every loop-free edge set over {a,b,c,d}, 4096 graphs), every edge LIST of <= 3 edges over {a,b,c} (duplicates, both listing orders), the empty file, and name families {x1, y', _z} and {a, v_a, b} (a vertex named like another vertex's copy) x {-u} x {-a}. Oracle: the emitted text is parsed by the reference parser and evaluated by brute force over all assignments (quantifier by enumeration); its models, read as vertex sets with unmentioned vertices unconstrained, must equal the brute-force maximum cliques (all cliques with -a) under the directed / undirected reading; the real `rsbdd -t -f true` on the same text must list the same sets. distinct = distinct (edge list, flags)",
+    rule: "the real max_clique_gen binary on EVERY edge set over the vertex names {a,b,c} including self-loops (512 graphs; thorough: every loop-free edge set over {a,b,c,d}, 4096 graphs), every edge LIST of <= 3 edges over {a,b,c} (duplicates, both listing orders), the empty file, Windows line endings, and name families {x1, y', _z}, {a, v_a, b} (a vertex named like another vertex's copy) and {a_b, c, a, b_c} (colliding concatenations) x {-u} x {-a}. Oracle: the emitted text is parsed by the reference parser and evaluated by brute force over all assignments (quantifier by enumeration); its models, read as vertex sets with unmentioned vertices unconstrained, must equal the brute-force maximum cliques (all cliques with -a) under the directed / undirected reading; the real `rsbdd -t -f true` on the same text must list the same sets. distinct = distinct (edge list, flags)",
     assumptions: &["clique = vertex set whose distinct members are pairwise adjacent; adjacency without -u needs both directions, with -u either", "vertex names are identifiers; graphs of <= 4 vertices"],
     max_shards: 64,
     run,
@@ -38,10 +38,14 @@ fn expected_sets(verts: &[String], edges: &[(String, String)], u: bool, all: boo
 }
 
 fn check_graph(ctx: &mut Ctx, edges: &[(String, String)], u: bool, all: bool, with_rsbdd: bool) {
+    check_graph_eol(ctx, edges, u, all, with_rsbdd, "\n")
+}
+
+fn check_graph_eol(ctx: &mut Ctx, edges: &[(String, String)], u: bool, all: bool, with_rsbdd: bool, eol: &str) {
     ctx.begin_case(|| case(edges, u, all));
     ctx.count("evaluations", 1);
     ctx.distinct(&(edges, u, all));
-    let key = format!("{TAG} edges {:?}{}{}", edges.iter().map(|(a, b)| format!("{a},{b}")).collect::<Vec<_>>(), if u { " -u" } else { "" }, if all { " -a" } else { "" });
+    let key = format!("{TAG} edges {:?}{}{}{}", edges.iter().map(|(a, b)| format!("{a},{b}")).collect::<Vec<_>>(), if u { " -u" } else { "" }, if all { " -a" } else { "" }, if eol == "\n" { "" } else { " (CRLF line endings)" });
     let mut verts: Vec<String> = vec![];
     for (a, b) in edges {
         for v in [a, b] {
@@ -50,7 +54,7 @@ fn check_graph(ctx: &mut Ctx, edges: &[(String, String)], u: bool, all: bool, wi
             }
         }
     }
-    let csv: String = edges.iter().map(|(a, b)| format!("{a},{b}\n")).collect();
+    let csv: String = edges.iter().map(|(a, b)| format!("{a},{b}{eol}")).collect();
     let mut args = vec![];
     if u {
         args.push("-u".to_string());
@@ -178,6 +182,44 @@ fn run(ctx: &mut Ctx) {
         for d in lists {
             let edges: Vec<(String, String)> = d.iter().map(|i| p3[*i].clone()).collect();
             go(ctx, &edges, false);
+        }
+    }
+    // Windows line endings in the edge list
+    for mask in 0..(1usize << p3.len()) {
+        let edges: Vec<(String, String)> = (0..p3.len()).filter(|i| mask & (1 << i) != 0).map(|i| p3[i].clone()).collect();
+        if ctx.mine(mask as u64) {
+            check_graph_eol(ctx, &edges, mask % 2 == 0, mask % 4 >= 2, false, "\r\n");
+        }
+    }
+    // names whose concatenations collide: (a_b, c) and (a, b_c) both spell a_b_c
+    {
+        let names = ["a_b", "c", "a", "b_c"];
+        let mut und = vec![];
+        for i in 0..4 {
+            for j in (i + 1)..4 {
+                und.push((names[i].to_string(), names[j].to_string()));
+            }
+        }
+        // every unordered pair absent, listed forwards, or listed backwards: 3^6 edge lists
+        let mut code = vec![0u8; und.len()];
+        loop {
+            let edges: Vec<(String, String)> = (0..und.len()).filter(|i| code[*i] != 0).map(|i| if code[i] == 1 { und[i].clone() } else { (und[i].1.clone(), und[i].0.clone()) }).collect();
+            go(ctx, &edges, false);
+            let mut k = 0;
+            loop {
+                if k == code.len() {
+                    break;
+                }
+                code[k] += 1;
+                if code[k] < 3 {
+                    break;
+                }
+                code[k] = 0;
+                k += 1;
+            }
+            if k == code.len() {
+                break;
+            }
         }
     }
     // name families
